@@ -135,6 +135,7 @@ pub fn run_c05(outdir: &str, seed: u64, thorough: bool) -> serde_json::Value {
         if made <= 2 { st.sample(json!({"query":sql,"strategy":if hard {"Hard"} else {"Soft"},"shape":shape,"skeleton":skeleton})); }
     }
     attribution_natural_keys(&mut st, &mut rng, thorough);
+    tracked_under_qualified_paths(&mut st);
     let header = "From Coq Require Import List Bool. Import ListNotations.\nFrom QV Require Import Rel.Track Corr.Lib Corr.C05.";
     let f = write_shards(outdir, "c05_skeleton", header, "c05_case", "check", &cases, 400);
     std::fs::write(format!("{}/c05_skeleton.json", outdir), serde_json::to_string(&cj).unwrap()).unwrap();
@@ -188,6 +189,47 @@ fn attribution_natural_keys(st: &mut Stats, rng: &mut Rng, thorough: bool) {
                     break;
                 }
             }
+        }
+    }
+}
+/// tables registered under a schema-qualified path and named after it (shop_people), protected through the last
+/// component of the path (people): each of them, alone or joined, comes out privacy-unit tracked
+fn tracked_under_qualified_paths(st: &mut Stats) {
+    use qrlew::{builder::{Ready as _, With as _}, hierarchy::Hierarchy, privacy_unit_tracking::PrivacyUnit, relation::Schema, DataType};
+    use std::sync::Arc;
+    let mk = |t: &str, cols: Vec<(&str, DataType)>| -> (Vec<String>, Arc<Relation>) {
+        let schema: Schema = cols.into_iter().collect();
+        (vec!["shop".to_string(), t.to_string()], Arc::new(Relation::table().path(["shop", t]).schema(schema).size(100).build())) };
+    let rels: Hierarchy<Arc<Relation>> = vec![
+        mk("people", vec![("pid", DataType::integer_interval(0, 20)), ("age", DataType::integer_interval(18, 90))]),
+        mk("carts", vec![("id", DataType::integer_interval(0, 20)), ("pid", DataType::integer_interval(0, 20)), ("total", DataType::float_interval(0.0, 100.0))])].into_iter().collect();
+    let pu = PrivacyUnit::from(vec![("people", vec![], "pid"), ("carts", vec![("pid", "people", "pid")], "pid")]);
+    let queries = ["SELECT p.age AS a FROM shop.people AS p", "SELECT c.total AS a FROM shop.carts AS c", "SELECT c.total AS a, p.age AS b FROM shop.carts AS c JOIN shop.people AS p ON c.total > p.age",
+        "SELECT c.total AS a FROM shop.carts AS c WHERE c.total > 3"];
+    for sql in queries.iter() {
+        for hard in [true, false] {
+            let res = catch_unwind(AssertUnwindSafe(|| {
+                let q = qrlew::sql::parse(sql).map_err(|e| e.to_string())?;
+                let rel = Relation::try_from(q.with(&rels)).map_err(|e| e.to_string())?;
+                rel.rewrite_as_privacy_unit_preserving(&rels, None, pu.clone(), crate::rules::dp_params(), Some(if hard { Strategy::Hard } else { Strategy::Soft })).map_err(|e| e.to_string())
+            }));
+            st.evaluations += 1; st.distinct.insert(hash_str(&format!("qualified{}{}", sql, hard))); st.bump("qualified_path_rewritings");
+            if let Ok(Ok(rw)) = res {
+                let tracked = rw.relation().schema().iter().any(|f| f.name() == "_PRIVACY_UNIT_");
+                // a join of two tracked relations compares their units
+                let joins_ok = crate::ir::all_nodes(rw.relation()).iter().all(|n| match n { Relation::Join(j) => {
+                    let both = j.left().schema().iter().any(|f| f.name() == "_PRIVACY_UNIT_") && j.right().schema().iter().any(|f| f.name() == "_PRIVACY_UNIT_");
+                    !both || j.operator().to_string().contains("_PRIVACY_UNIT_") || format!("{:?}", j.operator()).matches("_PRIVACY_UNIT_").count() >= 2 }, _ => true });
+                // a tracked relation is never joined with an untracked read of a protected table (both tables are protected here)
+                let has_pu = |x: &Relation| x.schema().iter().any(|f| f.name() == "_PRIVACY_UNIT_");
+                let reads_table = |x: &Relation| crate::ir::all_nodes(x).iter().any(|n| matches!(n, Relation::Table(_)));
+                let reads_raw = crate::ir::all_nodes(rw.relation()).iter().any(|n| match n { Relation::Join(j) =>
+                    (has_pu(j.left()) && !has_pu(j.right()) && reads_table(j.right())) || (has_pu(j.right()) && !has_pu(j.left()) && reads_table(j.left())), _ => false });
+                if !tracked || !joins_ok || reads_raw {
+                    st.violation(json!({"kind":"protected-table-not-tracked","class":"schema-qualified-path","query":sql,"strategy":if hard {"Hard"} else {"Soft"},"result_tracked":tracked,"joins_compare_units":joins_ok,"join_reads_raw_table":reads_raw,
+                        "rewritten":render(rw.relation()).chars().take(600).collect::<String>()}));
+                }
+            } else { st.bump("qualified_path_not_rewritten"); }
         }
     }
 }
@@ -391,7 +433,8 @@ fn gen_exact_query(r: &mut Rng) -> (String, String, Vec<String>, Vec<String>, Ve
     let wh = if r.chance(1, 3) { format!(" WHERE {} > {}", r.pick(&nums), r.range(0, 20)) } else { String::new() };
     for i in 0..r.range(1, 4) {
         let c = *r.pick(&nums);
-        let e = if r.chance(1, 4) { format!("{} + 1", c) } else { c.to_string() };
+        // also values far below 1 (the clipping bound of the sum is then below 1) and negative values
+        let e = match r.below(8) { 0 | 1 => format!("{} + 1", c), 2 => format!("{} / 100000", c), 3 => format!("{} - 2000", c), _ => c.to_string() };
         let (f, kind) = *r.pick(&[("COUNT", "count"), ("SUM", "sum"), ("AVG", "avg"), ("VARIANCE", "var"), ("STDDEV", "std"), ("COUNT", "count"), ("SUM", "sum")]);
         let d = if r.chance(1, 5) && kind != "var" && kind != "std" { "DISTINCT " } else { "" };
         items.push(format!("{}({}{}) AS a{}", f, d, e, i));
@@ -579,6 +622,22 @@ pub fn run_c04(outdir: &str, seed: u64, thorough: bool) -> serde_json::Value {
                 if !borderline && sigma.is_finite() && tau.is_finite() {
                     cases.push(format!("({}%nat, {}, {}, {}, {}, {})", cu, fq(tau), fq(sigma), fq(z),
                         coq_list(&pairs, |(u, k)| format!("({}, {})", coq_z(*u), coq_z(*k))), coq_list(&rel, |k| coq_z(*k))));
+                }
+            }
+            // the counts the threshold is applied to: whatever ranks are drawn, a unit is counted in exactly min(Cu, its
+            // number of keys) groups, so the counts add up to the sum of these numbers
+            if let Some(counting) = crate::ir::all_nodes(rw.relation()).into_iter().find(|n| matches!(n, Relation::Reduce(_)) && n.schema().iter().any(|f| f.name() == "_COUNT_DISTINCT_PID_")) {
+                if let Ok((cn, crow)) = db.query(&render(counting)) {
+                    if let Some(ci) = col_index(&cn, "_COUNT_DISTINCT_PID_") {
+                        let total: f64 = crow.iter().filter_map(|x| x[ci].as_f64()).sum();
+                        let mut keys_of: BTreeMap<String, BTreeSet<String>> = BTreeMap::new();
+                        for row in urows.iter() { if row[0] != SV::Null { keys_of.entry(row[0].canon()).or_default().insert(row[1].canon()); } }
+                        let want: f64 = keys_of.values().map(|ks| (ks.len() as f64).min(cu as f64)).sum();
+                        st.bump("contribution_totals_compared");
+                        if (total - want).abs() > 1e-9 {
+                            st.violation(json!({"kind":"units-counted-in-more-groups-than-the-limit","query":sql,"cu":cu,"sum_of_counts":total,"sum_of_min_cu_keys_per_unit":want,"units":keys_of.len()}));
+                        }
+                    }
                 }
             }
             // how many distinct keys each unit holds: capping can only matter above Cu
